@@ -946,6 +946,33 @@ public:
   unsigned getNumErrors() const { return numErrors; }
 };
 
+/// Compute the signature stored with (and compared against) a command result.
+///
+/// Besides the command line this covers the declared inputs: the engine only
+/// rescans the dependencies that were recorded when the command last ran, so
+/// an input added to a build statement whose command line did not change would
+/// otherwise never be requested (an implicit input would never trigger a
+/// rebuild, an order-only input would never be built).
+static CommandSignature getCommandSignature(const ninja::Command* command) {
+  CommandSignature signature(command->getCommandString());
+  for (auto it = command->explicitInputs_begin(),
+         ie = command->explicitInputs_end(); it != ie; ++it) {
+    signature.combine(StringRef("\x01"));
+    signature.combine((*it)->getCanonicalPath());
+  }
+  for (auto it = command->implicitInputs_begin(),
+         ie = command->implicitInputs_end(); it != ie; ++it) {
+    signature.combine(StringRef("\x02"));
+    signature.combine((*it)->getCanonicalPath());
+  }
+  for (auto it = command->orderOnlyInputs_begin(),
+         ie = command->orderOnlyInputs_end(); it != ie; ++it) {
+    signature.combine(StringRef("\x03"));
+    signature.combine((*it)->getCanonicalPath());
+  }
+  return signature;
+}
+
 static core::Task*
 buildCommand(BuildContext& context, ninja::Command* command) {
   struct NinjaCommandTask : core::Task {
@@ -1141,7 +1168,7 @@ buildCommand(BuildContext& context, ninja::Command* command) {
       //
       // FIXME: Is it right to bring this up-to-date when one of the inputs
       // indicated a failure? It probably doesn't matter.
-      auto commandHash = CommandSignature(command->getCommandString());
+      auto commandHash = getCommandSignature(command);
       if (command->getRule() == context.manifest->getPhonyRule()) {
         // Get the result.
         BuildValue result = computeCommandResult(commandHash);
@@ -1365,7 +1392,7 @@ buildCommand(BuildContext& context, ninja::Command* command) {
           //
           // We always restat the output, but we honor Ninja's restat flag by
           // forcing downstream propagation if it isn't set.
-          auto commandHash = CommandSignature(command->getCommandString());
+          auto commandHash = getCommandSignature(command);
           BuildValue resultValue = computeCommandResult(commandHash);
 
           // Remove response file.
@@ -1627,8 +1654,7 @@ static bool buildCommandIsResultValid(ninja::Command* command,
 
   // For non-generator commands, if the command hash has changed, recompute.
   if (!command->hasGeneratorFlag()) {
-    if (value.getCommandHash() != CommandSignature(
-          command->getCommandString()))
+    if (value.getCommandHash() != getCommandSignature(command))
       return false;
   }
 
@@ -1661,7 +1687,7 @@ static bool selectCompositeIsResultValid(ninja::Command* command,
   // If the command's signature has changed since it was built, rebuild. This is
   // important for ensuring that we properly reevaluate the select rule when
   // it's incoming composite rule no longer exists.
-  if (value.getCommandHash() != CommandSignature(command->getCommandString()))
+  if (value.getCommandHash() != getCommandSignature(command))
     return false;
 
   // Otherwise, this result is always valid.
